@@ -266,6 +266,101 @@ pub fn run_c06(args: &Args) -> i32 {
             }
         }
     }
+    // 4b. the whole domain of the castling-rights validation: every occupant of the six home
+    //     squares (empty, either king, either rook, a queen) x every rights subset x both turns
+    if !reduced() {
+        let occ: [Option<char>; 6] = [None, Some('K'), Some('k'), Some('R'), Some('r'), Some('Q')];
+        let homes = [4usize, 60, 0, 7, 56, 63]; // e1 e8 a1 h1 a8 h8
+        for code in 0..6usize.pow(6) {
+            let mut board: [Option<char>; 64] = [None; 64];
+            let mut c = code;
+            for h in homes {
+                board[h] = occ[c % 6];
+                c /= 6;
+            }
+            // make sure each side has a king somewhere harmless when none is on a home square
+            if !board.iter().any(|x| *x == Some('K')) {
+                board[27] = Some('K'); // d4
+            }
+            if !board.iter().any(|x| *x == Some('k')) {
+                board[45] = Some('k'); // f6
+            }
+            let mut placement = String::new();
+            for rank in (0..8).rev() {
+                let mut empty = 0;
+                for file in 0..8 {
+                    match board[rank * 8 + file] {
+                        Some(ch) => {
+                            if empty > 0 {
+                                placement.push_str(&empty.to_string());
+                                empty = 0;
+                            }
+                            placement.push(ch);
+                        }
+                        None => empty += 1,
+                    }
+                }
+                if empty > 0 {
+                    placement.push_str(&empty.to_string());
+                }
+                if rank > 0 {
+                    placement.push('/');
+                }
+            }
+            for r in 1..16u8 {
+                let mut rs = String::new();
+                for (i, ch) in ['K', 'Q', 'k', 'q'].iter().enumerate() {
+                    if r & (1 << i) != 0 {
+                        rs.push(*ch);
+                    }
+                }
+                for t in ["w", "b"] {
+                    products.push(format!("{placement} {t} {rs} - 0 1"));
+                }
+            }
+        }
+        // 4c. the whole domain of the en-passant validation: marker file x occupants of the origin,
+        //     skipped and pawn squares (empty, either pawn, either knight) x both turns x both marker ranks
+        let eocc: [Option<char>; 5] = [None, Some('P'), Some('p'), Some('N'), Some('n')];
+        for f in 0..8usize {
+            for code in 0..5usize.pow(6) {
+                // ranks 2,3,4 and 5,6,7 of file f
+                let mut col: [Option<char>; 8] = [None; 8];
+                let mut c = code;
+                for r in [1usize, 2, 3, 4, 5, 6] {
+                    col[r] = eocc[c % 5];
+                    c /= 5;
+                }
+                let mut rows: Vec<String> = vec![];
+                for rank in (0..8).rev() {
+                    let mut row = String::new();
+                    let mut empty = 0;
+                    for file in 0..8 {
+                        let ch = if file == f { col[rank] } else if rank == 0 && file == (f + 4) % 8 { Some('K') } else if rank == 7 && file == (f + 4) % 8 { Some('k') } else { None };
+                        match ch {
+                            Some(x) => {
+                                if empty > 0 {
+                                    row.push_str(&empty.to_string());
+                                    empty = 0;
+                                }
+                                row.push(x);
+                            }
+                            None => empty += 1,
+                        }
+                    }
+                    if empty > 0 {
+                        row.push_str(&empty.to_string());
+                    }
+                    rows.push(row);
+                }
+                let placement = rows.join("/");
+                let file_ch = (b'a' + f as u8) as char;
+                for (t, rank) in [("w", '6'), ("b", '3')] {
+                    products.push(format!("{placement} {t} - {file_ch}{rank} 0 1"));
+                }
+            }
+        }
+    }
     products.par_iter().for_each(|p| run_case(p.as_bytes(), &report, &c));
     let prod = products.len() as u64;
     eprintln!("[C06] field products done: {prod} parses, {:.1}s", report.start.elapsed().as_secs_f64());
@@ -312,6 +407,40 @@ pub fn run_c06(args: &Args) -> i32 {
             report.record(&d, || json!({"kind": "reachable", "fen": fen}));
         }
     }
+    // 5b. every member of the small-material families (both colours) is a playable position whose
+    //     canonical FEN must be accepted and parse to that position
+    {
+        use crate::explore::{family_positions, Family};
+        let fams: Vec<(Family, u8)> = if quick || reduced() || light {
+            vec![(Family::Three, 0), (Family::PawnPush, 0), (Family::PromoPin, 0), (Family::EpCheck, 0), (Family::Castle, 0)]
+        } else {
+            vec![(Family::Three, 0), (Family::PawnPush, 1), (Family::PromoPin, 0), (Family::EpCheck, 1), (Family::PromoCheck, 1), (Family::Castle, 1), (Family::Ep, 1), (Family::Promo, 1)]
+        };
+        for (fam, level) in fams {
+            let members = family_positions(fam, level);
+            let bad: Vec<(String, Vec<Divergence>)> = members
+                .par_iter()
+                .flat_map_iter(|base| {
+                    let mut out = vec![];
+                    for p in [base.clone(), base.mirror()] {
+                        if p.valid_root().is_err() {
+                            continue;
+                        }
+                        let fen = p.to_fen();
+                        let d = c06_reachable_case(&fen);
+                        if !d.is_empty() {
+                            out.push((fen, d));
+                        }
+                    }
+                    out
+                })
+                .collect();
+            reach_n += 2 * members.len() as u64;
+            for (fen, d) in bad {
+                report.record(&d, || json!({"kind": "reachable", "fen": fen}));
+            }
+        }
+    }
     eprintln!("[C06] reachable FENs done: {reach_n}, {:.1}s", report.start.elapsed().as_secs_f64());
 
     // 6. builder call sequences
@@ -340,7 +469,7 @@ pub fn run_c06(args: &Args) -> i32 {
         json!({
             "evaluations": parses + reach_n + builds,
             "distinct_nontrivial": accepted + built_ok,
-            "rule": "seeds = every catalogue FEN + field-shape seeds; (1) all single edits with all 256 byte values (substitute, delete, insert), every prefix; (2) all double edits over a 28-symbol alphabet holding one representative per parser match arm (quick: 30 richest seeds, thorough: all seeds); (3) every string of length <= 5 (thorough 6) over that alphabet; (4) complete product of valid/invalid spellings per field on 4 placements; (5) canonical FEN of every position reachable within depth 2 (thorough 3) of every root must be accepted and parse to that position; (6) builder call sequences. Non-trivial = inputs the parser/builder ACCEPTED (the C06 invariants are evaluated on each of them); rejected inputs only exercise totality.",
+            "rule": "seeds = every catalogue FEN + field-shape seeds; (1) all single edits with all 256 byte values (substitute, delete, insert), every prefix; (2) all double edits over a 28-symbol alphabet holding one representative per parser match arm (quick: 30 richest seeds, thorough: all seeds); (3) every string of length <= 5 (thorough 6) over that alphabet; (4) complete product of valid/invalid spellings per field on 4 placements, the complete domain of the castling-rights validation (every occupant of e1 e8 a1 h1 a8 h8 out of {empty, either king, either rook, queen} x 15 rights subsets x both turns) and of the en-passant validation (marker file x every occupancy of the six squares of that file on ranks 2-7 out of {empty, either pawn, either knight} x both turns); (5) canonical FEN of every position reachable within depth 2 (thorough 3) of every root, and of every member of the small-material families (kings + one piece, pawn pushes, promotion pins, en-passant and castling families, both colours), must be accepted and parse to that position; (6) builder call sequences. Non-trivial = inputs the parser/builder ACCEPTED (the C06 invariants are evaluated on each of them); rejected inputs only exercise totality.",
             "seeds": seeds.len(),
             "single_edit_parses": single, "double_edit_parses": double, "short_string_parses": short, "field_product_parses": prod,
             "parses_repeated_in_trapping_build": trapped_parses,
@@ -436,6 +565,11 @@ pub fn builder_case(seq: &BuildSeq) -> (bool, Vec<Divergence>) {
             let got = read_back(&board);
             if got.board != model || got.turn != seq.turn || got.ep != seq.ep.map(|f| f as i8) || got.rights.iter().any(|x| *x) {
                 d.push(Divergence::new("builder-board-differs-from-calls", format!("{seq:?} built '{}'", got.to_fen())));
+            } else if let Ok(twin) = parse_board(&got.to_fen()) {
+                // same position through the parser: identical board, hash and derived state
+                if twin != board || twin.zobrist() != board.zobrist() || twin.in_check() != board.in_check() || !twin.legals().eq(board.legals()) {
+                    d.push(Divergence::new("builder-board-differs-from-parsed-twin", format!("{seq:?} built '{}' but hash / check state / moves differ from the parsed board", got.to_fen())));
+                }
             }
             if EXERCISE.load(Ordering::Relaxed) && std::panic::catch_unwind(|| exercise(&board, 1)).is_err() {
                 d.push(Divergence::new("accepted-position-crashes-safe-api", format!("builder {seq:?}")));
@@ -476,13 +610,17 @@ fn builder_sequences(report: &Report, quick: bool) -> (u64, u64) {
             }
         }
     }
-    // more than 16 pieces
-    for n in [14usize, 15, 16] {
-        let mut places = vec![];
-        for i in 0..n {
-            places.push((8 + i as u8, Col::W, refchess::Pc::N));
+    // more than 16 pieces, either colour, either side to move
+    for n in [14usize, 15, 16, 17] {
+        for col in [Col::W, Col::B] {
+            for turn in [Col::W, Col::B] {
+                let mut places = vec![];
+                for i in 0..n {
+                    places.push((16 + i as u8, col, refchess::Pc::N));
+                }
+                seqs.push(BuildSeq { kings: vec![(4, Col::W), (60, Col::B)], places, remove: None, turn, ep: None });
+            }
         }
-        seqs.push(BuildSeq { kings: vec![(4, Col::W), (60, Col::B)], places, remove: None, turn: Col::W, ep: None });
     }
     let res: Vec<(bool, Vec<Divergence>)> = seqs.par_iter().map(builder_case).collect();
     let mut ok = 0;
